@@ -45,7 +45,7 @@ def one_move(ctx, name, src_field, src_ty, dst_field, dst_ty):
     for c in pu:
         r = ctx.S.slice_operand(body, c.args[0]); it = ctx.S.slice_operand(body, c.args[-1])
         ctx.check(r.has_field(INST, dst_field), R + '/move/push-to', 'T-CARRY', body.name, 'push is not on self.%s' % dst_field, body.site(c.bb))
-        ctx.check(bool(rm) and rm[0] in it.call_objs and not it.has_call('Clone>::clone'), R + '/move/same-element', 'T-CARRY', body.name,
+        ctx.check(bool(rm) and rm[0] in it.call_objs and not any(x.item == 'clone' for x in it.call_objs), R + '/move/same-element', 'T-CARRY', body.name,
                   'the pushed element is not the removed one', body.site(c.bb))
         if c.item == 'insert' or len(c.args) != 2:
             ctx.bad(R + '/move/push-shape', 'T-CARRY', body.name, 'unexpected push form ' + c.name[:60], body.site(c.bb))
